@@ -107,6 +107,13 @@ def build(case):
     return pool, std
 
 
+def safe(fn):
+    try:
+        return fn()
+    except Exception:  # noqa: whatever the code under test raises is an observation
+        return None
+
+
 def private_demand(std, Q=Q):
     try:
         return to_grid(std._demand, Q)
@@ -159,8 +166,20 @@ def execute_with_incr(case):
     `std.demand += k` histories are exercised; the resolved ops are stored back in the case so
     a replay file is self-contained."""
     # resolve incrementally: we need the value read, so run step by step
-    pool, std = build(case)
     Q = grid_of(case)  # noqa: shadows the default grid
+    try:
+        pool, std = build(case)
+    except Exception as ex:  # noqa: the constructor refuses a combination it is documented to accept
+        # nothing can be written or read: every write and read of the history is off any grid
+        events = []
+        for op in case["ops"]:
+            if op["e"] == "Write":
+                events.append({"e": "Write", "v": op["v"], "ty": op["ty"], "t": OFFGRID, "s": OFFGRID, "raised": "constructor:" + type(ex).__name__})
+            elif op["e"] == "Read":
+                events.append({"e": "Read", "r": OFFGRID, "s": OFFGRID})
+        if not events:
+            events.append({"e": "Read", "r": OFFGRID, "s": OFFGRID})
+        return case, {"par": dict(case["par"], one=Q), "supply": case["supply"], "tdemand": case["tdemand"], "sdemand": case["tdemand"], "events": events}
     ops, events = [], []
     last_read = None
     for op in case["ops"]:
@@ -183,7 +202,10 @@ def execute_with_incr(case):
                 continue
             events.append({"e": "Write", "v": op["v"], "ty": op["ty"], "t": to_grid(pool.demand, Q), "s": private_demand(std, Q)})
         elif e == "Read":
-            last_read_py = std.demand
+            try:
+                last_read_py = std.demand
+            except Exception:  # noqa: a read has no documented way to fail: no value on any grid
+                last_read_py = None
             last_read = to_grid(last_read_py, Q)
             events.append({"e": "Read", "r": last_read, "s": private_demand(std, Q)})
         elif e == "SupplyChange":
@@ -198,7 +220,7 @@ def execute_with_incr(case):
             events.append(
                 {
                     "e": "Fitness",
-                    "through": [to_grid(std.supply, Q), to_grid(std.utilisation, 4), to_grid(std.allocation, 4)],
+                    "through": [to_grid(safe(lambda: std.supply), Q), to_grid(safe(lambda: std.utilisation), 4), to_grid(safe(lambda: std.allocation), 4)],
                     "direct": [to_grid(pool.supply, Q), op["u"], op["a"]],
                 }
             )
